@@ -77,6 +77,12 @@ check("C09", "model_checking",
       "the decoder keeps ahead (assumption of the statement), enforced through the verif-hooks gate; the end of the sound may be observed one callback apart (different look-ahead windows).",
       "DESIGN.md §3 C09")
 
+check("C10", "fault_enumeration",
+      "exhaustive enumeration of fault positions x terminal events x decoder paces with the real decoder thread paced deterministically; preemption-bounded DFS over decoder-thread / driver-thread interleavings",
+      "E3: {finite, looping} 6-frame stream x {no fault, k-th decode call fails k=1..8, k-th seek call fails k=1..4} x terminal event {none / natural end / failure, stop(0) and stop(2 frames) before callback 0..3, rejected by a full track, track handle dropped before callback 0..3, manager dropped before callback 0..3} x placement {main, sub-track, paused sub-track, paused sound} x decoder pace {ahead, lagging, stalled then ahead} = 4914 scenarios on the real manager; afterwards the decoder thread is granted up to ring-capacity + 64 further loop iterations: it must have exited and released its decoder, must not call a failing decoder repeatedly, the sound must be Stopped by the callback after the error, unloaded, silent afterwards, the first error poppable, and heard frames must be source frames in order (gaps only). E2: six driver || decoder harnesses (natural end, stop(0), stop(2f), 3rd decode fails, track dropped, seek + set_loop_region) explored over all schedules with <= 2 (3 thorough) preemptions, switching at the decode-loop gate, the shared flags, the frame ring's and the command channel's atomic operations, with a fairness bound of 3 decoder iterations per turn.",
+      "'bounded time' is measured in decoder-loop iterations of a closed system; a stop() issued while the sound's track is paused is frozen with the track (C12) and not yet terminal.",
+      "DESIGN.md §3 C10")
+
 NOT_YET = {}
 
 def main():
